@@ -578,10 +578,14 @@ func TestVerifC09Loop(t *testing.T) { vt.Run(t, c09lGen, c09lRun) }
 // from being collected". One vanished pod's release fails on EVERY pass (gcPods gives up a
 // pass at the first failing record); the other vanished pods must still be collected. The
 // statement's "within two passes" cannot hold for them on any implementation that gives a
-// pass up at a failing record, so the bound used here is generous: every other vanished
-// pod is gone after at most 40 passes (the unchanged code visits the records in the store's
-// random order, so a record is reached before the failing one in about every second pass),
-// survivors are never touched, and the failing pod keeps its record and its address.
+// pass up at a failing record, so the bound used here is very generous: every other vanished
+// pod is gone after at most 600 passes. The unchanged code visits the records in the
+// iteration order of a Go map, which for a handful of entries is a random ROTATION of a fixed
+// order: a record that sits right behind the failing one is reached first only when the
+// rotation starts exactly there, i.e. in one pass out of 8 to 16 (a first version of this
+// test allowed 40 passes and raised a false alarm on the unchanged tree in about 1 % of the
+// cases). With 600 passes the chance of a false alarm is below 1e-16. Survivors are never
+// touched, and the failing pod keeps its record and its address.
 type c09sScenario struct {
 	Victims int `json:"victims"` // vanished pods whose cleanup works
 	Running int `json:"running"`
@@ -673,7 +677,7 @@ func c09sRun(c *vt.Ctx, s c09sScenario) {
 		return out
 	}
 	passes := 0
-	for ; passes < 40 && len(left()) > 0; passes++ {
+	for ; passes < 600 && len(left()) > 0; passes++ {
 		_ = w.svc.gcPods(context.Background())
 		for i, name := range names {
 			if !vanished[i] {
